@@ -220,6 +220,23 @@ def gen_cases(rng, tier):
         add("win", "%s %d %d" % (hexs(bs), s, e), "run_win %s %d %d" % (coq_list(bs), s, e),
             {"bytes": bs, "s": s, "e": e})
 
+    # windows with byte-aligned end followed by reader operations and close
+    for _ in range(300 if tier == "quick" else 5000):
+        nb = rng.range(1, 6)
+        bs = rng.bytes(nb)
+        if rng.chance(1, 2):
+            bs[rng.below(nb)] = 0
+        e = 8 * rng.range(0, nb)
+        s0 = rng.range(0, e)
+        ops = []
+        for _o in range(rng.below(8)):
+            r = rng.below(10)
+            ops.append(("b",) if r < 6 else ("2",) if r < 8 else ("8",))
+        hl = " ".join(o[0] for o in ops)
+        ce = "[" + "; ".join({"b": "RBit", "2": "RU2", "8": "RU8"}[o[0]] for o in ops) + "]"
+        add("winops", "%s %d %d %s" % (hexs(bs), s0, e, hl), "run_winops %s %d %d %s" % (coq_list(bs), s0, e, ce),
+            {"bytes": bs, "s": s0, "e": e, "ops": ops})
+
     # collect_bits
     for _ in range(120 if tier == "quick" else 2000):
         bits = rng.bits(rng.below(40))
@@ -263,6 +280,11 @@ def prop_check(c, r):
         exp = ops_ref(m["bytes"], m["ops"])
         if exp is not None and r != exp:
             return ("reader", "reader ops on %s: got %s, expected %s" % (hexs(m["bytes"]), r, exp))
+    elif c.kind == "winops":
+        exp = ops_ref(m["bytes"], m["ops"], m["s"], m["e"])
+        if exp is not None and r != exp:
+            return ("window-reader", "window(%d,%d) over %s then %s: got %s, expected %s"
+                    % (m["s"], m["e"], hexs(m["bytes"]), [o[0] for o in m["ops"]], r, exp))
     elif c.kind == "wr":
         bits = []
         bad = False
@@ -298,9 +320,13 @@ def prop_check(c, r):
     return None
 
 
-def ops_ref(bs, ops):
-    """Bit-queue reference for reader op sequences."""
-    q = bits_of_bytes(bs)
+def ops_ref(bs, ops, s=0, e=None):
+    """Bit-queue reference for reader op sequences over bits [s, e) of the byte string
+    (a plain reader: s = 0, e = 8*len(bs); a window: byte-aligned e)."""
+    allb = bits_of_bytes(bs)
+    if e is None:
+        e = len(allb)
+    q = allb[s:e]
     pos = 0
     out = []
     for o in ops:
@@ -336,15 +362,17 @@ def ops_ref(bs, ops):
             pos += exp[2]
             out += [0, exp[1], pos]
     out.append(7)
-    # close: all bytes pulled and unread bits of the current byte zero
-    if pos == 0 and bs:
-        out += [1, bs[0]]
-        return out
-    nbytes_pulled = (pos + 7) // 8
-    if nbytes_pulled < len(bs):
-        out += [1, bs[nbytes_pulled]]
+    # close: succeeds exactly when every byte of the range has been pulled and the unread bits
+    # of the current byte are zero
+    p = s + pos
+    if p == s and s % 8 == 0:
+        pulled = s // 8
     else:
-        rest = q[pos:]
+        pulled = (p + 7) // 8
+    if pulled * 8 < e:
+        out += [1, bs[pulled]]
+    else:
+        rest = allb[p:pulled * 8]
         if any(rest):
             v = 0
             for b in rest:
@@ -371,6 +399,8 @@ def nontrivial(c, r):
         return ("dec", tuple(m["bits"])) if len(m["bits"]) >= 3 else None
     if c.kind == "ops":
         return ("ops", tuple(m["bytes"]), tuple(m["ops"])) if len(m["ops"]) >= 2 and m["bytes"] else None
+    if c.kind == "winops":
+        return ("winops", tuple(m["bytes"]), m["s"], m["e"], tuple(m["ops"])) if m["s"] % 8 else None
     if c.kind == "wr":
         return ("wr", str(m["ops"])) if len(m["ops"]) >= 2 else None
     if c.kind == "win":
